@@ -1,10 +1,15 @@
 #!/bin/sh
-# tools/try_seed.sh <patch.diff> <ID> [<ID> ...] : applies a seeded change to /repo, runs the quick checks, undoes it.
-patch="$1"; shift
+# tools/try_seed.sh <seed name, e.g. C07-m3> [<ID> ...] : applies a seeded change in a scratch worktree of /repo HEAD (never to /repo
+# itself), runs the quick (or $TIER) checks against it through VERIF_REPO, removes the worktree. Evidence files are restored.
+seed="$1"; shift
+ids="$*"; [ -z "$ids" ] && ids="${seed%-*}"
+wt=$(mktemp -d /tmp/tryseed-XXXXXX); rmdir "$wt"
+git -C /repo worktree add --detach "$wt" HEAD >/dev/null 2>&1 || exit 3
+(cd "$wt" && git apply "/verif/seeded/$seed/patch.diff") || { echo "$seed: APPLY FAILED"; git -C /repo worktree remove --force "$wt"; exit 3; }
 cd /verif
-git -C /repo apply "$patch" || { echo "patch does not apply"; exit 3; }
-for id in "$@"; do
-  echo "== $id with $(basename $(dirname $patch))/$(basename $patch)"
-  VERIF_TIER=${TIER:-quick} bin/check "$id" --tier ${TIER:-quick} 2>&1 | grep -v "^  [^ ]\{0\}" | grep "VIOLATION\|OK (\|violation(s)\|INFRA\|DRIFT\|KNOWN" | cut -c1-200 | sort | uniq -c | sort -rn | head -8
+for id in $ids; do
+  cp evidence/$id.json /tmp/ev.$$.json 2>/dev/null
+  echo "$seed -> $id: $(VERIF_REPO=$wt bin/check $id --tier ${TIER:-quick} 2>&1 | grep 'OK (\|violation(s)\|INFRA' | head -2 | tr '\n' ' ')"
+  cp /tmp/ev.$$.json evidence/$id.json 2>/dev/null; rm -f /tmp/ev.$$.json
 done
-git -C /repo checkout -- . && git -C /repo status --short | head -3
+git -C /repo worktree remove --force "$wt"
